@@ -152,4 +152,21 @@ def GenPos : Path → Bool
   | a :: rest => distinctFrom a rest && noneCollinearFrom a rest && GenPos rest
   | [] => true
 
+/-- if `a`, `b`, `d` are collinear then `b` lies strictly between `a` and `d` -/
+def orderedTriple (a b d : P) : Bool :=
+  decide (orient a b d ≠ 0) || decide ((a.x - b.x) * (d.x - b.x) + (a.y - b.y) * (d.y - b.y) < 0)
+
+def orderedFrom (a : P) : Path → Bool
+  | b :: rest => (rest.all fun d => orderedTriple a b d) && orderedFrom a rest
+  | [] => true
+
+/-- **collinear vertices in order**: vertices pairwise distinct, and whenever three vertices
+`c[i], c[j], c[k]` with `i < j < k` are collinear, `c[j]` lies strictly between the other two — the
+curve may run straight through any number of vertices but never comes back onto a line through
+two of its vertices out of order.  Implied by `GenPos`; straight runs (grid lines, densified
+segments) satisfy it. -/
+def ColOrdered : Path → Bool
+  | a :: rest => distinctFrom a rest && orderedFrom a rest && ColOrdered rest
+  | [] => true
+
 end GeomV.C13.Spec
